@@ -119,6 +119,15 @@ let ix_apply (o : op) = ix_world := apply_op !ix_commit !ix_size !ix_confirms !i
 let handle (toks : string list) : string =
   match toks with
   (* ixinit rows|real SIZE CONFIRMS block... *)
+  (* common/bitutil: CompressBytes / DecompressBytes(data, target) *)
+  | ["compress"; d] -> hex_of_bytes (compress (bytes_of_hex d))
+  | ["decompress"; d; target] ->
+    (match decompress (bytes_of_hex d) (nat_of_int (int_of_string target)) with
+     | DOk out -> "ok " ^ hex_of_bytes out
+     | DErr ErrMissingData -> "err-missing"
+     | DErr ErrUnreferencedData -> "err-unreferenced"
+     | DErr ErrExceededTarget -> "err-exceeded"
+     | DErr ErrZeroContent -> "err-zero")
   | "ixinit" :: mode :: size :: confirms :: blocks ->
     ix_commit := (if mode = "rows" then process_section_rows else process_section);
     ix_size := n_of_string size; ix_confirms := n_of_string confirms;
